@@ -266,6 +266,28 @@ func convertFacts(s *src, f *facts) {
 		}
 	}
 	f.b("clLookupUnderLock", lookupOK, s.pos(call))
+	invokeOutside, plainMutex := false, false
+	if call != nil {
+		li := s.heldAt(call.Body, "m.closuresLock")
+		inv := first(all(call.Body, func(c *ast.CallExpr) bool { return s.str(c.Fun) == "closure" }))
+		deferred := len(all(call.Body, func(d *ast.DeferStmt) bool { return strings.Contains(s.str(d.Call), "closuresLock") })) > 0
+		other := len(all(call.Body, func(c *ast.CallExpr) bool {
+			n := s.str(c.Fun)
+			return strings.Contains(n, "closuresLock") && !strings.HasSuffix(n, ".Lock") && !strings.HasSuffix(n, ".Unlock")
+		})) > 0
+		invokeOutside = inv != nil && !li.heldFor(inv) && !deferred && !other
+	}
+	if st := s.structDecl("closureManager"); st != nil {
+		for _, fl := range st.Fields.List {
+			for _, n := range fl.Names {
+				if n.Name == "closuresLock" && s.str(fl.Type) == "sync.Mutex" {
+					plainMutex = true
+				}
+			}
+		}
+	}
+	f.b("clInvokeOutsideLock", invokeOutside, s.pos(call))
+	f.b("clLockIsMutex", plainMutex, s.pos(call))
 	f.b("clMissingIsError", missing, s.pos(call))
 	reg := s.funcDecl("", "registerClosure")
 	delOK, insOK, idFresh := false, false, false
